@@ -530,4 +530,208 @@ theorem runH_contract (base : List Key) (h : HM HRes) (hs : ∀ a p, Keeps (SadI
   rw [hme, hsad, hnl]
   exact ⟨h2, h1.2.2.1, h1.2.2.2.1, h1.2.2.2.2⟩
 
+/-! ### "not in the middle of an IKE_SA rekey of our own": only the rekey timer's generator ever enters that state -/
+
+/-- … and no successor object exists (one is created only by that generator and by the responder side of an IKE_SA rekey) -/
+def N13 (s : HSt) : Prop := s.me.core.st ≠ stREK_IKE_SA_REQ_SENT ∧ s.succ = none
+
+macro "keeps_n" : tactic => `(tactic| repeat' (first
+  | exact Keeps.pure _
+  | exact Keeps.raise _
+  | exact Keeps.read _
+  | exact Keeps.liftE _
+  | exact KeepsOpt.none
+  | apply KeepsOpt.some
+  | (simp only [keepsN13]; done)
+  | (apply Keeps.bind_liftE; intro _ _)
+  | apply Keeps.bind
+  | apply Keeps.tryCatch
+  | intro _
+  | split
+  | (simp only [modCore, modExt, modMe, setState, markBad, handOver]; apply Keeps.modify; intro s h;
+     simp_all [N13, XSa.setKids, stREK_IKE_SA_REQ_SENT, stESTABLISHED, stREKEYED, stDELETED, stINIT_RES_SENT, stINIT_REQ_SENT,
+       stAUTH_REQ_SENT, stNEW_CHILD_REQ_SENT, stREK_CHILD_REQ_SENT, stDEL_CHILD_REQ_SENT, stDPD_REQ_SENT, stDEL_IKE_SA_REQ_SENT,
+       stDEL_AFTER_REKEY_IKE_SA_REQ_SENT]; done)
+  | (apply Keeps.modify; intro s h; simp_all [N13]; done)
+  | dsimp only))
+
+section n13
+
+@[keepsN13] theorem popVal_n : Keeps N13 popVal := by
+  constructor; intro s h; unfold popVal; split <;> exact h
+@[keepsN13] theorem getSlot_n (sl) : Keeps N13 (getSlot sl) := by
+  cases sl
+  · simp only [getSlot, getMe]; exact Keeps.read _
+  · constructor; intro s h; simp only [getSlot]; split <;> exact h
+  · constructor; intro s h; simp only [getSlot]; split <;> exact h
+theorem modSlot_n (sl) (f : XSa → XSa) (hf : ∀ x, (f x).core.st = x.core.st) : Keeps N13 (modSlot sl f) := by
+  unfold modSlot; apply Keeps.modify; intro s h
+  cases sl
+  · simp only [N13] at h ⊢; rw [hf]; exact h
+  · simp only [N13] at h ⊢; simp [h.2]; exact h.1
+  · exact h
+@[keepsN13] theorem getPayload_n (m pt e) : Keeps N13 (getPayload m pt e) := Keeps.liftE _
+theorem trackChild_succ (k : Child) (s : HSt) : (trackChild k s).2.succ = s.succ := by
+  unfold trackChild; simp only; split
+  · rfl
+  · split <;> rfl
+theorem untrackChild_succ (k : Child) (s : HSt) : (untrackChild k s).2.succ = s.succ := by
+  unfold untrackChild; split <;> rfl
+@[keepsN13] theorem trackChild_n (k) : Keeps N13 (trackChild k) := by
+  constructor; intro s h
+  refine ⟨?_, by rw [trackChild_succ]; exact h.2⟩
+  rcases trackChild_me k s with h1 | h1 <;> (rw [h1]; simpa [XSa.setKids] using h.1)
+@[keepsN13] theorem untrackChild_n (k) : Keeps N13 (untrackChild k) := by
+  constructor; intro s h
+  refine ⟨?_, by rw [untrackChild_succ]; exact h.2⟩
+  rcases untrackChild_me k s with h1 | h1 <;> (rw [h1]; simpa [XSa.setKids] using h.1)
+@[keepsN13] theorem markBad_n : Keeps N13 markBad := by unfold markBad; keeps_n
+@[keepsN13] theorem popBytes_n : Keeps N13 popBytes := by unfold popBytes; keeps_n
+@[keepsN13] theorem popBytesOrFail_n : Keeps N13 popBytesOrFail := by unfold popBytesOrFail; keeps_n
+@[keepsN13] theorem popOk_n : Keeps N13 popOk := by unfold popOk; keeps_n
+@[keepsN13] theorem popNum_n : Keeps N13 popNum := by unfold popNum; keeps_n
+@[keepsN13] theorem popAuthGen_n : Keeps N13 popAuthGen := by unfold popAuthGen; keeps_n
+@[keepsN13] theorem popAuthVerify_n : Keeps N13 popAuthVerify := by unfold popAuthVerify; keeps_n
+@[keepsN13] theorem getMe_n : Keeps N13 getMe := by unfold getMe; keeps_n
+
+macro "keeps_n2" : tactic => `(tactic| repeat' (first
+  | exact Keeps.pure _
+  | exact Keeps.raise _
+  | exact Keeps.read _
+  | exact Keeps.liftE _
+  | exact KeepsOpt.none
+  | apply KeepsOpt.some
+  | (simp only [keepsN13]; done)
+  | (apply modSlot_n; intro x; simp; done)
+  | (apply Keeps.bind_liftE; intro _ _)
+  | apply Keeps.bind
+  | apply Keeps.tryCatch
+  | intro _
+  | split
+  | (simp only [modCore, modExt, modMe, setState, markBad, handOver]; apply Keeps.modify; intro s h;
+     simp_all [N13, XSa.setKids, stREK_IKE_SA_REQ_SENT, stESTABLISHED, stREKEYED, stDELETED, stINIT_RES_SENT, stINIT_REQ_SENT,
+       stAUTH_REQ_SENT, stNEW_CHILD_REQ_SENT, stREK_CHILD_REQ_SENT, stDEL_CHILD_REQ_SENT, stDPD_REQ_SENT, stDEL_IKE_SA_REQ_SENT,
+       stDEL_AFTER_REKEY_IKE_SA_REQ_SENT]; done)
+  | (apply Keeps.modify; intro s h; simp_all [N13]; done)
+  | dsimp only))
+
+@[keepsN13] theorem setState_n (st) (h : st ≠ stREK_IKE_SA_REQ_SENT) : Keeps N13 (setState st) := by
+  unfold setState modCore; apply Keeps.modify; intro s hs; exact ⟨by simpa using h, hs.2⟩
+@[keepsN13] theorem abortOnErrorNotifies_n (m e i) : Keeps N13 (abortOnErrorNotifies m e i) := by unfold abortOnErrorNotifies; keeps_n2
+@[keepsN13] theorem checkInStates_n (l) : Keeps N13 (checkInStates l) := by unfold checkInStates; keeps_n2
+@[keepsN13] theorem assertState_n (l) : Keeps N13 (assertState l) := by unfold assertState; keeps_n2
+@[keepsN13] theorem newXSa_n (cf now i q x y) : Keeps N13 (newXSa cf now i q x y) := by unfold newXSa; keeps_n2
+@[keepsN13] theorem cookieGate_n (x m) : Keeps N13 (cookieGate x m) := by unfold cookieGate; keeps_n2
+@[keepsN13] theorem negotiateIkeRequest_n (sl m e) : Keeps N13 (negotiateIkeRequest sl m e) := by unfold negotiateIkeRequest; keeps_n2
+@[keepsN13] theorem processIkeSaInitRequest_n (m) : Keeps N13 (processIkeSaInitRequest m) := by unfold processIkeSaInitRequest; keeps_n2
+@[keepsN13] theorem generateIkeNegotiation_n (sl) : Keeps N13 (generateIkeNegotiation sl) := by unfold generateIkeNegotiation; keeps_n2
+@[keepsN13] theorem generateChildNegotiation_n (k) : Keeps N13 (generateChildNegotiation k) := by unfold generateChildNegotiation; keeps_n2
+@[keepsN13] theorem generateIkeSaInitRequest_n (k) : Keeps N13 (generateIkeSaInitRequest k) := by unfold generateIkeSaInitRequest; keeps_n2
+@[keepsN13] theorem generateCreateChildSaRequest_n (k r) : Keeps N13 (generateCreateChildSaRequest k r) := by unfold generateCreateChildSaRequest; keeps_n2
+@[keepsN13] theorem generateDeleteChildSaRequest_n (k) : Keeps N13 (generateDeleteChildSaRequest k) := by unfold generateDeleteChildSaRequest; keeps_n2
+@[keepsN13] theorem generateDpdRequest_n : Keeps N13 (generateDpdRequest ) := by unfold generateDpdRequest; keeps_n2
+@[keepsN13] theorem generateDeleteIkeSaRequest_n : Keeps N13 generateDeleteIkeSaRequest := by
+  unfold generateDeleteIkeSaRequest
+  apply Keeps.bind (assertState_n _)
+  intro _
+  apply Keeps.bind getMe_n
+  intro x
+  apply Keeps.bind
+  · unfold modCore; apply Keeps.modify; intro s hs
+    refine ⟨?_, hs.2⟩
+    simp only
+    split <;> decide
+  · intro _; exact Keeps.pure _
+@[keepsN13] theorem genAcquireH_n (x y i) : Keeps N13 (genAcquireH x y i) := by unfold genAcquireH; keeps_n2
+@[keepsN13] theorem genExpireH_n (k h) : Keeps N13 (genExpireH k h) := by unfold genExpireH; keeps_n2
+@[keepsN13] theorem childRekeyPrelude_n (m sa x y) : Keeps N13 (childRekeyPrelude m sa x y) := by unfold childRekeyPrelude; keeps_n2
+@[keepsN13] theorem childNonce_n (m) : Keeps N13 (childNonce m) := by unfold childNonce; keeps_n2
+@[keepsN13] theorem childKe_n (m q) : Keeps N13 (childKe m q) := by unfold childKe; keeps_n2
+@[keepsN13] theorem childCreateResponder_n (q x y m pol) : Keeps N13 (childCreateResponder q x y m pol) := by unfold childCreateResponder; keeps_n2
+@[keepsN13] theorem childNegotiationReqBody_n (m) : Keeps N13 (childNegotiationReqBody m) := by unfold childNegotiationReqBody; keeps_n2
+@[keepsN13] theorem childNegotiationReq_n (m) : Keeps N13 (childNegotiationReq m) := by unfold childNegotiationReq; keeps_n2
+@[keepsN13] theorem processIkeAuthRequest_n (m) : Keeps N13 (processIkeAuthRequest m) := by unfold processIkeAuthRequest; keeps_n2
+@[keepsN13] theorem deleteSpis_n (proto) (l acc) : Keeps N13 (deleteSpis proto l acc) := by
+  induction l generalizing acc with
+  | nil => unfold deleteSpis; keeps_n2
+  | cons spi rest ih =>
+    unfold deleteSpis
+    keeps_n2
+    all_goals exact ih _
+@[keepsN13] theorem deleteLoop_n (l acc) : Keeps N13 (deleteLoop l acc) := by
+  induction l generalizing acc with
+  | nil => unfold deleteLoop; keeps_n2
+  | cons q rest ih =>
+    unfold deleteLoop
+    keeps_n2
+    all_goals exact ih _
+@[keepsN13] theorem processInformationalRequest_n (m) : Keeps N13 (processInformationalRequest m) := by unfold processInformationalRequest; keeps_n2
+theorem processCreateChildSaRequest_n (now m) (hn : notIkeRekey m) : Keeps N13 (processCreateChildSaRequest now m) := by
+  unfold processCreateChildSaRequest
+  keeps_n2
+  all_goals (
+    exact absurd ‹Proposal.proto _ = 1› (hn _ _ ‹paySA m true = _›))
+@[keepsN13] theorem handleInvalidKe_n (d) : Keeps N13 (handleInvalidKe d) := by unfold handleInvalidKe; keeps_n2
+@[keepsN13] theorem negotiateIkeResponse_n (sl m e r) : Keeps N13 (negotiateIkeResponse sl m e r) := by unfold negotiateIkeResponse; keeps_n2
+@[keepsN13] theorem generateIkeAuthRequest_n : Keeps N13 (generateIkeAuthRequest ) := by unfold generateIkeAuthRequest; keeps_n2
+@[keepsN13] theorem processIkeSaInitResponse_n (m) : Keeps N13 (processIkeSaInitResponse m) := by unfold processIkeSaInitResponse; keeps_n2
+@[keepsN13] theorem childNegotiationResBody_n (m) : Keeps N13 (childNegotiationResBody m) := by unfold childNegotiationResBody; keeps_n2
+@[keepsN13] theorem childNegotiationRes_n (m) : Keeps N13 (childNegotiationRes m) := by unfold childNegotiationRes; keeps_n2
+@[keepsN13] theorem processIkeAuthResponse_n (m) : Keeps N13 (processIkeAuthResponse m) := by unfold processIkeAuthResponse; keeps_n2
+@[keepsN13] theorem ikeRekeyResponse_n (now m x) : Keeps N13 (ikeRekeyResponse now m x) := by unfold ikeRekeyResponse; keeps_n2
+@[keepsN13] theorem childSaResponse_n (prev m) : Keeps N13 (childSaResponse prev m) := by unfold childSaResponse; keeps_n2
+@[keepsN13] theorem processCreateChildSaResponse_n (now m) : Keeps N13 (processCreateChildSaResponse now m) := by unfold processCreateChildSaResponse; keeps_n2
+@[keepsN13] theorem processInformationalResponse_n (m) : Keeps N13 (processInformationalResponse m) := by unfold processInformationalResponse; keeps_n2
+
+theorem requestHandler_n (now m h) (hh : requestHandler now m = some h) (hn : notIkeRekey m) : Keeps N13 h := by
+  unfold requestHandler at hh
+  repeat' split at hh
+  all_goals first
+    | (cases hh; simp only [keepsN13])
+    | (cases hh; exact processCreateChildSaRequest_n now m hn)
+    | (simp at hh)
+
+end n13
+
+/-! ### the two together: CHILD_SA traffic on an IKE_SA that is not rekeying itself -/
+
+theorem Keeps.and {α} {I J : HSt → Prop} {m : HM α} (h1 : Keeps I m) (h2 : Keeps J m) : Keeps (fun s => I s ∧ J s) m :=
+  ⟨fun s h => ⟨h1.keep s h.1, h2.keep s h.2⟩⟩
+
+def SadN (base : List Key) (a p : Bytes) (s : HSt) : Prop := SadI base a p s ∧ N13 s
+
+theorem requestHandler_sn (base : List Key) (a p : Bytes) (now : Nat) (m : Msg) (h : HM HRes) (hh : requestHandler now m = some h)
+    (hn : notIkeRekey m) : Keeps (SadN base a p) h :=
+  Keeps.and (requestHandler_s base a p now m h hh hn) (requestHandler_n now m h hh hn)
+
+/-- the CREATE_CHILD_SA response handler reads the state to choose its branch; the invariant says which branch it is -/
+theorem processCreateChildSaResponse_sn (base : List Key) (a p : Bytes) (now : Nat) (m : Msg) :
+    Keeps (SadN base a p) (processCreateChildSaResponse now m) := by
+  unfold processCreateChildSaResponse
+  apply Keeps.bind (Keeps.and (checkInStates_s base a p _) (checkInStates_n _))
+  intro _
+  apply Keeps.bind (Keeps.and (abortOnErrorNotifies_s base a p _ _ _) (abortOnErrorNotifies_n _ _ _))
+  intro _
+  apply Keeps.bind_getMe (fun x => x.core.st ≠ stREK_IKE_SA_REQ_SENT) (fun s h => h.2.1)
+  intro x hx
+  split
+  · rename_i h13; exact absurd h13 hx
+  · exact Keeps.and (childSaResponse_s base a p _ m) (childSaResponse_n _ m)
+
+theorem responseHandler_sn (base : List Key) (a p : Bytes) (now : Nat) (m : Msg) (h : HM HRes) (hh : responseHandler now m = some h) :
+    Keeps (SadN base a p) h := by
+  unfold responseHandler at hh
+  repeat' split at hh
+  all_goals first
+    | (cases hh; exact Keeps.and (processIkeSaInitResponse_s base a p m) (processIkeSaInitResponse_n m))
+    | (cases hh; exact Keeps.and (processIkeAuthResponse_s base a p m) (processIkeAuthResponse_n m))
+    | (cases hh; exact processCreateChildSaResponse_sn base a p now m)
+    | (cases hh; exact Keeps.and (processInformationalResponse_s base a p m) (processInformationalResponse_n m))
+    | (simp at hh)
+
+theorem genAcquireH_sn (base : List Key) (a p : Bytes) (x y : TS) (i : Nat) : Keeps (SadN base a p) (genAcquireH x y i) :=
+  Keeps.and (genAcquireH_s base a p x y i) (genAcquireH_n x y i)
+theorem genExpireH_sn (base : List Key) (a p : Bytes) (c : ChildRef) (hard : Bool) : Keeps (SadN base a p) (genExpireH c hard) :=
+  Keeps.and (genExpireH_s base a p c hard) (genExpireH_n c hard)
+
 end PyIkev2.Impl
